@@ -1,5 +1,7 @@
 import NfcVerif.Lemmas.Snep
 import NfcVerif.Lemmas.Handover
+import NfcVerif.Lemmas.SnepSched
+import NfcVerif.Lemmas.NdefRecords
 /-!
 # C06 - SNEP and handover carry NDEF messages intact through fragmentation
 
@@ -256,4 +258,221 @@ theorem handover_asfound_counterexample : ¬ AsFoundSequence := by
   exact absurd h4 (by decide)
 
 end handover
+/-! ## Any interleaving, any receive window
+
+The statements above deliver the queued messages in one fixed order over an unbounded channel.
+The following ones remove both idealisations: the two applications and the two link threads may
+be interleaved in any way (in particular the receiving application may be arbitrarily slow), and
+each direction of the data link connection lets only `RW` unacknowledged messages travel and
+keeps at most `RW` in the receive queue (`Model/SnepSched.lean`, `WNet`).  With
+acknowledgements that follow consumption (`AckMode.onConsume`, the code as it is) nothing is ever
+discarded, the link never blocks for ever and every schedule that comes to rest ends in the state
+of the ideal run - so every delivery statement of this file holds for every schedule and every
+pair of receive windows.  Acknowledging what still sits in the receive queue breaks this
+(`ack_on_receipt_loses_fragment`, `ack_all_received_loses_fragment`). -/
+section schedules
+variable {C S D : Type}
+
+/-- **confluence**: two interleavings of the same network that both come to rest end in the same
+state after the same number of deliveries - nothing is delivered twice or skipped by reordering -/
+theorem interleavings_confluent (p : Proto C S D) (n m1 m2 : Net C S D) (s1 s2 : List Who)
+    (h1 : Exec p n s1 m1) (hq1 : quiet p m1) (h2 : Exec p n s2 m2) (hq2 : quiet p m2) :
+    m1 = m2 ∧ s1.length = s2.length :=
+  exec_confluent p h1 hq1 h2 hq2
+
+/-- every interleaving can be continued to rest, and then has made exactly as many deliveries as
+any other one -/
+theorem interleavings_extend (p : Proto C S D) (n m q : Net C S D) (s s0 : List Who)
+    (h : Exec p n s m) (h0 : Exec p n s0 q) (hq : quiet p q) :
+    ∃ s', Exec p m s' q ∧ s.length + s'.length = s0.length :=
+  exec_extend p h h0 hq
+
+/-- two programs that both have a message waiting: the two orders of delivery are two different
+executions with the same end -/
+def pingProto : Proto Nat Nat Bytes :=
+  { srv := fun s m => (s + 1, [], [m]), cli := fun c _ => (c + 1, []), cwait := fun _ => true, swait := fun _ => true }
+
+example : ∃ m, Exec pingProto { cst := 0, sst := 0, c2s := [[1]], s2c := [[2]] } [.srv, .cli] m ∧
+    Exec pingProto { cst := 0, sst := 0, c2s := [[1]], s2c := [[2]] } [.cli, .srv] m ∧ quiet pingProto m :=
+  ⟨_, Exec.cons .srv _ (by decide) (Exec.cons .cli _ (by decide) (Exec.nil _)),
+    Exec.cons .cli _ (by decide) (Exec.cons .srv _ (by decide) (Exec.nil _)), by decide⟩
+
+/-- **the windowed link never discards** (acknowledgement on consumption): whatever the receive
+windows and the schedule -/
+theorem window_never_discards (p : Proto C S D) (k : Win) (hk : k.mode = .onConsume) (n : Net C S D)
+    (ss : List WStep) :
+    (runW p k ss n.onLink).c2s.lost = [] ∧ (runW p k ss n.onLink).s2c.lost = [] ∧
+    (runW p k ss n.onLink).c2s.inq.length ≤ k.rwS ∧ (runW p k ss n.onLink).s2c.inq.length ≤ k.rwC := by
+  obtain ⟨⟨⟨a1, a2, a3⟩, ⟨b1, b2, b3⟩⟩, _⟩ := wnet_refines p k hk ss n.onLink (onLink_inv k n)
+  exact ⟨a1, b1, by omega, by omega⟩
+
+/-- **no deadlock by flow control**: receive windows of at least 1, a message under way that its
+receiver waits for - then some link or application step is enabled -/
+theorem window_no_deadlock (p : Proto C S D) (k : Win) (hk : k.mode = .onConsume) (hS : 0 < k.rwS)
+    (hC : 0 < k.rwC) (n : Net C S D) (ss : List WStep) (hq : ¬ quiet p (runW p k ss n.onLink).abs) :
+    ∃ s, WEn p k s (runW p k ss n.onLink) :=
+  wnet_progress p k hS hC _ (wnet_refines p k hk ss n.onLink (onLink_inv k n)).1 hq
+
+/-- lifting: what holds for the ideal run from some fuel on holds for every windowed schedule that
+comes to rest -/
+theorem any_window_any_schedule (p : Proto C S D) (k : Win) (hk : k.mode = .onConsume) (n0 : Net C S D)
+    (P : Net C S D → Prop) (h : ∃ N, ∀ fuel, N ≤ fuel → P (pump p fuel n0) ∧ quiet p (pump p fuel n0))
+    (ss : List WStep) (hq : quiet p (runW p k ss n0.onLink).abs) :
+    P (runW p k ss n0.onLink).abs ∧
+    (runW p k ss n0.onLink).c2s.lost = [] ∧ (runW p k ss n0.onLink).s2c.lost = [] := by
+  obtain ⟨N, hN⟩ := h
+  obtain ⟨hp, hqp⟩ := hN N (Nat.le_refl _)
+  obtain ⟨he, l1, l2⟩ := windowed_confluent p k hk n0 ss N hq hqp
+  exact ⟨by rw [he]; exact hp, l1, l2⟩
+
+end schedules
+
+section snep_windowed
+open NfcVerif.Snep
+
+theorem idle_quiet (cfg : SCfg) (n : SNet) (h : Idle n) : quiet (proto cfg) n :=
+  ⟨h.2.1, Or.inl h.2.2⟩
+
+/-- **Put over the complete picture**: any receive windows, any interleaving of the two link
+threads and the two applications (slow consumers included) - once nothing is deliverable any more
+the message has reached the callback exactly once and intact, the client has Success, the
+connection is idle, and no I PDU was discarded on the way. -/
+theorem snep_put_delivers_windowed (cfg : SCfg) (cc : CCfg) (msg : Bytes) (n : SNet) (hn : Idle n)
+    (hc : 6 ≤ cc.miu) (hs : 6 ≤ cfg.smiu) (hlen : msg.length < 2 ^ 32) (hacc : msg.length ≤ cfg.maxAcc)
+    (hv : cfg.h.valid msg = true) (hput : cfg.h.put msg = 0x81)
+    (k : Win) (hk : k.mode = .onConsume) (ss : List WStep)
+    (hq : quiet (proto cfg) (runW (proto cfg) k ss (startOp cc n .put msg).onLink).abs) :
+    (runW (proto cfg) k ss (startOp cc n .put msg).onLink).abs.dl = n.dl ++ [(Op.put, msg)] ∧
+    result (runW (proto cfg) k ss (startOp cc n .put msg).onLink).abs = .okTrue ∧
+    Idle (runW (proto cfg) k ss (startOp cc n .put msg).onLink).abs ∧
+    (runW (proto cfg) k ss (startOp cc n .put msg).onLink).c2s.lost = [] ∧
+    (runW (proto cfg) k ss (startOp cc n .put msg).onLink).s2c.lost = [] := by
+  obtain ⟨N, hN⟩ := snep_put_delivers cfg cc msg n hn hc hs hlen hacc hv hput
+  have := any_window_any_schedule (proto cfg) k hk (startOp cc n .put msg)
+    (fun m => m.dl = n.dl ++ [(Op.put, msg)] ∧ result m = .okTrue ∧ Idle m)
+    ⟨N, fun fuel hf => ⟨⟨(hN fuel hf).1, (hN fuel hf).2.1, (hN fuel hf).2.2.2⟩,
+      idle_quiet cfg _ (hN fuel hf).2.2.2⟩⟩ ss hq
+  exact ⟨this.1.1, this.1.2.1, this.1.2.2, this.2.1, this.2.2⟩
+
+/-- **Oversize over the complete picture**: never delivered, not even in part, whatever the
+schedule and the windows -/
+theorem snep_oversize_rejected_windowed (cfg : SCfg) (cc : CCfg) (msg : Bytes) (n : SNet) (hn : Idle n)
+    (hc : 6 ≤ cc.miu) (hlen : msg.length < 2 ^ 32) (hacc : cfg.maxAcc < msg.length)
+    (k : Win) (hk : k.mode = .onConsume) (ss : List WStep)
+    (hq : quiet (proto cfg) (runW (proto cfg) k ss (startOp cc n .put msg).onLink).abs) :
+    (runW (proto cfg) k ss (startOp cc n .put msg).onLink).abs.dl = n.dl ∧
+    (runW (proto cfg) k ss (startOp cc n .put msg).onLink).abs.logS = n.logS ++ [rejectRsp] ∧
+    result (runW (proto cfg) k ss (startOp cc n .put msg).onLink).abs =
+      (if (putReq msg).length ≤ cc.miu then .snepError 0xFF else .okFalse) := by
+  obtain ⟨N, hN⟩ := snep_oversize_rejected cfg cc msg n hn hc hlen hacc
+  have := any_window_any_schedule (proto cfg) k hk (startOp cc n .put msg)
+    (fun m => m.dl = n.dl ∧ m.logS = n.logS ++ [rejectRsp] ∧
+      result m = (if (putReq msg).length ≤ cc.miu then .snepError 0xFF else .okFalse))
+    ⟨N, fun fuel hf => ⟨⟨(hN fuel hf).1, (hN fuel hf).2.1, (hN fuel hf).2.2.2.1⟩,
+      idle_quiet cfg _ (hN fuel hf).2.2.2.2⟩⟩ ss hq
+  exact this.1
+
+/-- **Get over the complete picture** (response acceptable to the client) -/
+theorem snep_get_returns_windowed (cfg : SCfg) (cc : CCfg) (msg rd : Bytes) (n : SNet) (hn : Idle n)
+    (hc : 6 ≤ cc.miu) (hs : 6 ≤ cfg.smiu) (hlen : 4 + msg.length < 2 ^ 32) (hcacc : cc.acc < 2 ^ 32)
+    (hacc : 4 + msg.length ≤ cfg.maxAcc) (hv : cfg.h.valid msg = true)
+    (hget : cfg.h.get msg = .inr rd) (hrd : rd.length ≤ cc.acc)
+    (k : Win) (hk : k.mode = .onConsume) (ss : List WStep)
+    (hq : quiet (proto cfg) (runW (proto cfg) k ss (startOp cc n .get msg).onLink).abs) :
+    (runW (proto cfg) k ss (startOp cc n .get msg).onLink).abs.dl = n.dl ++ [(Op.get, msg)] ∧
+    result (runW (proto cfg) k ss (startOp cc n .get msg).onLink).abs = .okData rd ∧
+    (runW (proto cfg) k ss (startOp cc n .get msg).onLink).c2s.lost = [] ∧
+    (runW (proto cfg) k ss (startOp cc n .get msg).onLink).s2c.lost = [] := by
+  obtain ⟨N, hN⟩ := snep_get_returns cfg cc msg rd n hn hc hs hlen hcacc hacc hv hget hrd
+  have := any_window_any_schedule (proto cfg) k hk (startOp cc n .get msg)
+    (fun m => m.dl = n.dl ++ [(Op.get, msg)] ∧ result m = .okData rd)
+    ⟨N, fun fuel hf => ⟨⟨(hN fuel hf).1, (hN fuel hf).2.1⟩, idle_quiet cfg _ (hN fuel hf).2.2⟩⟩ ss hq
+  exact ⟨this.1.1, this.1.2, this.2.1, this.2.2⟩
+
+def lossCfg : SCfg := { maxAcc := 100, smiu := 6, h := { valid := fun _ => true, put := fun _ => 0x81, get := fun _ => .inl 0xE0 } }
+
+/-- the hypotheses of `snep_put_delivers_windowed` are satisfiable with a slow consumer: receive
+window 1, three fragments, the server application runs only after the link has nothing to do -/
+example : (runW (proto lossCfg) { rwS := 1, rwC := 1 }
+      [.xmit .srv, .app .srv, .ack .srv, .xmit .cli, .app .cli, .xmit .srv, .xmit .srv, .app .srv, .ack .srv,
+       .xmit .srv, .app .srv, .xmit .cli, .app .cli]
+      (startOp { miu := 6, acc := 10 } Snep.init .put [0xD1, 1, 3, 0x54, 1, 2, 3]).onLink).abs.dl =
+    [(Op.put, [0xD1, 1, 3, 0x54, 1, 2, 3])] := by decide
+
+/-- **acknowledging on receipt loses a fragment** (the class of C06-r2m4: `recv_confs` counted when
+the I PDU is enqueued): receive window 1, a Put of three fragments, the server application slower
+than the link - the third fragment is discarded by the full receive queue -/
+theorem ack_on_receipt_loses_fragment :
+    ∃ (ss : List WStep),
+      (runW (proto lossCfg) { rwS := 1, rwC := 1, mode := .onReceipt } ss
+        (startOp { miu := 6, acc := 10 } Snep.init .put [0xD1, 1, 3, 0x54, 1, 2, 3]).onLink).c2s.lost ≠ [] :=
+  ⟨[.xmit .srv, .ack .srv, .app .srv, .xmit .cli, .ack .cli, .app .cli, .xmit .srv, .ack .srv, .xmit .srv], by decide⟩
+
+/-- the plain sink: the server application keeps what it gets -/
+def sinkProto : Proto Unit Unit Bytes :=
+  { srv := fun _ m => ((), [], [m]), cli := fun _ _ => ((), []), cwait := fun _ => false, swait := fun _ => true }
+
+/-- **acknowledging everything received loses a fragment** (the class of C06-m4: the necessary
+acknowledgement sets V(RA) := V(R)): receive window 2, the application has taken one of two queued
+messages when the acknowledgement goes out -/
+theorem ack_all_received_loses_fragment :
+    ∃ (ss : List WStep),
+      (runW sinkProto { rwS := 2, rwC := 1, mode := .allReceived } ss
+        ({ cst := (), sst := (), c2s := [[1], [2], [3], [4]] } : Net Unit Unit Bytes).onLink).c2s.lost ≠ [] :=
+  ⟨[.xmit .srv, .xmit .srv, .app .srv, .ack .srv, .xmit .srv, .xmit .srv], by decide⟩
+
+/-- with acknowledgement on consumption the same schedules lose nothing (instance of
+`window_never_discards`) -/
+example : (runW sinkProto { rwS := 2, rwC := 1 } [.xmit .srv, .xmit .srv, .app .srv, .ack .srv, .xmit .srv, .xmit .srv]
+    ({ cst := (), sst := (), c2s := [[1], [2], [3], [4]] } : Net Unit Unit Bytes).onLink).c2s.lost = [] := by decide
+
+end snep_windowed
+
+section handover_windowed
+open NfcVerif.Handover
+
+theorem hidle_quiet (cfg : HCfg) (n : HNet) (h : HIdle n) : quiet (Handover.proto cfg) n :=
+  ⟨h.2.1, Or.inl h.2.2⟩
+
+/-- **Handover with ndeflib-shaped messages**: the completeness test is the structural NDEF reading,
+request and select message are encodings of non-empty lists of well-formed records - no hypothesis
+about prefixes is left: wherever the fragment boundaries fall (also exactly between two records)
+the request is delivered once and intact and the select message comes back intact. -/
+theorem handover_roundtrip_records (cfg : HCfg) (cmiu : Nat) (rq rs : List Rec) (n : HNet) (hn : HIdle n)
+    (hc : 0 < cmiu) (hs : 0 < cfg.smiu) (hreset : cfg.reset = true) (hcomp : cfg.complete = ndefComplete)
+    (hq1 : rq ≠ []) (hq2 : ∀ r ∈ rq, r.wf) (hh : cfg.handler (encMsg rq) = encMsg rs)
+    (hs1 : rs ≠ []) (hs2 : ∀ r ∈ rs, r.wf) :
+    ∃ N, ∀ fuel, N ≤ fuel →
+      (runReq cfg cmiu fuel n (encMsg rq)).dl = n.dl ++ [encMsg rq] ∧
+      Handover.result (runReq cfg cmiu fuel n (encMsg rq)) = some (encMsg rs) ∧
+      HIdle (runReq cfg cmiu fuel n (encMsg rq)) := by
+  obtain ⟨N, hN⟩ := handover_roundtrip cfg cmiu (encMsg rq) n hn hc hs hreset
+    (by rw [hcomp]; exact prefixFree_encMsg rq hq1 hq2)
+    (by rw [hcomp, hh]; exact prefixFree_encMsg rs hs1 hs2)
+  exact ⟨N, fun fuel hf => ⟨(hN fuel hf).1, by rw [(hN fuel hf).2.1, hh], (hN fuel hf).2.2.2.2⟩⟩
+
+/-- two records, the first one ends exactly at the fragment boundary (MIU 7): delivered as one message -/
+example : (runReq { smiu := 128, complete := ndefComplete, handler := fun _ => [0xD0, 0, 0], reset := true } 7 10
+    Handover.init (encMsg [{ tnf := 1, sr := true, typ := [0x54], id := none, payload := [1, 2, 3] },
+                           { tnf := 1, sr := true, typ := [0x55], id := none, payload := [4] }])).dl =
+    [[0x91, 1, 3, 0x54, 1, 2, 3, 0x51, 1, 1, 0x55, 4]] := by decide
+
+/-- **Handover over the complete picture**: any receive windows, any interleaving -/
+theorem handover_roundtrip_windowed (cfg : HCfg) (cmiu : Nat) (msg : Bytes) (n : HNet) (hn : HIdle n)
+    (hc : 0 < cmiu) (hs : 0 < cfg.smiu) (hreset : cfg.reset = true)
+    (hm : PrefixFree cfg.complete msg) (hr : PrefixFree cfg.complete (cfg.handler msg))
+    (k : Win) (hk : k.mode = .onConsume) (ss : List WStep)
+    (hq : quiet (Handover.proto cfg) (runW (Handover.proto cfg) k ss (startReq cmiu n msg).onLink).abs) :
+    (runW (Handover.proto cfg) k ss (startReq cmiu n msg).onLink).abs.dl = n.dl ++ [msg] ∧
+    Handover.result (runW (Handover.proto cfg) k ss (startReq cmiu n msg).onLink).abs = some (cfg.handler msg) ∧
+    (runW (Handover.proto cfg) k ss (startReq cmiu n msg).onLink).c2s.lost = [] ∧
+    (runW (Handover.proto cfg) k ss (startReq cmiu n msg).onLink).s2c.lost = [] := by
+  obtain ⟨N, hN⟩ := handover_roundtrip cfg cmiu msg n hn hc hs hreset hm hr
+  have := any_window_any_schedule (Handover.proto cfg) k hk (startReq cmiu n msg)
+    (fun m => m.dl = n.dl ++ [msg] ∧ Handover.result m = some (cfg.handler msg))
+    ⟨N, fun fuel hf => ⟨⟨(hN fuel hf).1, (hN fuel hf).2.1⟩, hidle_quiet cfg _ (hN fuel hf).2.2.2.2⟩⟩ ss hq
+  exact ⟨this.1.1, this.1.2, this.2.1, this.2.2⟩
+
+end handover_windowed
+
 end NfcVerif.C06
